@@ -23,6 +23,7 @@ structure St where
   pre : Option (Nat × Chk × String) := none
   post : Option (Nat × Chk × String) := none
   awaitPost : Bool := false
+  hist : List (Nat × Chk × String × Img) := []   -- observed positions: txid, checksum, image digest, image
   appliedSince : Bool := false   -- a transaction file was applied since the last `state` line
 
 def parseHex64 (s : String) : Option UInt64 :=
@@ -99,6 +100,33 @@ def check (st : St) (op obs : String) : St × String :=
   | ["ref-unknown"] => ({ st with ref := none, prev := none }, "ok")
   | ["ref-restart"] => (st, "ok")
   | ["expect-recovered"] => (st, "ok")
+  | "bg-start" :: _ | ["bg-resume"] | ["bg-result"] =>
+    if !obs.startsWith "finished ok " then (st, "ok") else
+    let body := (obs.drop 12).toString
+    let ws := words body
+    if body.startsWith "pos=" then
+      -- export: the bytes returned must be the image of exactly the position reported
+      match (fieldOf ws "pos") >>= parsePos, fieldOf ws "img" with
+      | some (t, c), some d =>
+        (match st.hist.find? (fun h => h.1 == t) with
+         | none => (st, s!"FAIL export reports a position ({t}) that was never a committed position of this database")
+         | some h =>
+           if h.2.1 ≠ c then (st, "FAIL export reports a position with a checksum that never existed")
+           else if h.2.2.1 ≠ d then (st, s!"FAIL export completed successfully but its bytes are not the image of the position it reports (txid {t}): a mixture of positions or uncommitted pages")
+           else (st, "ok"))
+      | _, _ => (st, "FAIL unreadable export result")
+    else
+      match parseEntry body with
+      | some (tx, some _) =>
+        (match st.hist.find? (fun h => h.1 == tx.maxTxid) with
+         | none => (st, s!"FAIL snapshot reports a position ({tx.maxTxid}) that was never committed")
+         | some h =>
+           let lock := lockOf st.ps
+           let want := (h.2.2.2.zipIdx.filter fun p => p.2 + 1 ≠ lock).map fun p => (p.2 + 1, p.1)
+           if tx.post ≠ h.2.1 then (st, "FAIL snapshot reports a checksum that never existed at that position")
+           else if tx.commit ≠ h.2.2.2.length || tx.pages ≠ want then (st, "FAIL snapshot completed successfully but its pages are not the image of the position it reports")
+           else (st, "ok"))
+      | _ => (st, "FAIL unreadable snapshot result")
   | ["crash-begin"] => ({ st with pre := some (st.posTxid, st.posChk, st.lastImg), post := none }, "ok")
   | ["crash-end"] => ({ st with awaitPost := true }, "ok")
   | ["crashpoint", _] =>
@@ -178,6 +206,9 @@ def check (st : St) (op obs : String) : St × String :=
     let ws := words obs
     let st := { st with lastImg := (fieldOf ws "img").getD "" }
     let st := if st.awaitPost then { st with awaitPost := false, post := some (st.posTxid, st.posChk, st.lastImg) } else st
+    let st := match st.ref with
+      | some img => if st.hist.any (fun h => h.1 == st.posTxid) then st else { st with hist := (st.posTxid, st.posChk, digest (lockOf st.ps) img, img) :: st.hist }
+      | none => st
     match st.ref, (fieldOf ws "chk") >>= parseHex64, fieldOf ws "img" with
     | some img, some c, some d =>
       if img.isEmpty then (st, "ok") else
